@@ -40,7 +40,7 @@ check("C13", "exploration",
       BASE_NOTE, "deterministic simulation: seeded scheduler on the Executor seam + preemption hooks, reference-interpreter oracle", "DESIGN.md section 4 C13")
 
 check("C14", "exploration",
-      "gen|relay|sink pipelines with payload sizes around every pipe-buffer boundary up to 4x capacity, command substitutions (plain/piped/nested/in-stage, 0-3 trailing newlines, multi-byte UTF-8), here-documents, the real read built-in on a slow producer, two processes writing PIPE_BUF-sized records to one pipe (no record torn) and two processes reading one pipe (every byte reaches exactly one of them), executed under seeded schedules with preemption at every read/write, short reads, legal partial writes and simulator-sent signals to stages that installed a trap; exact byte-stream oracle (length, first deviating offset, hash) computed by the generator; deadlock/livelock detection; a second engine drives the real WakerSet / ScheduledWakerQueue (the wake-up bookkeeping under pipes and timers) through seeded histories in which waiting cells die, are served by another event or are re-filled, against a reference model (no lost, invented or doubled wake-up); crash-injection runs (a stage killed from outside) check that every surviving process still terminates; every program ends by printing the shell's descriptor table, which must be the initial one. The property is quantified over schedules x sizes, which only controlled scheduling of the real pipe code reaches.",
+      "gen|relay|sink pipelines with payload sizes around every pipe-buffer boundary up to 4x capacity, command substitutions (plain/piped/nested/in-stage, 0-3 trailing newlines, multi-byte UTF-8), here-documents, the real read built-in on a slow producer, two processes writing PIPE_BUF-sized records to one pipe (no record torn) and two processes reading one pipe (every byte reaches exactly one of them), executed under seeded schedules with preemption at every read/write, short reads, legal partial writes and simulator-sent signals to stages that installed a trap; exact byte-stream oracle (length, first deviating offset, hash) computed by the generator; deadlock/livelock detection; further engines drive one pipe of the simulated kernel through read/write/dup/close/O_NONBLOCK/select histories against a POSIX pipe model (results byte for byte, blocked operations woken exactly when they can proceed, select agreeing with readiness), and the real WakerSet / ScheduledWakerQueue (the wake-up bookkeeping under pipes and timers) through seeded histories in which waiting cells die, are served by another event or are re-filled, against a reference model (no lost, invented or doubled wake-up); crash-injection runs (a stage killed from outside) check that every surviving process still terminates; every program ends by printing the shell's descriptor table, which must be the initial one. The property is quantified over schedules x sizes, which only controlled scheduling of the real pipe code reaches.",
       BASE_NOTE + " SIGPIPE is not modelled by the simulated kernel, so the early-exiting-reader cases check liveness and prefix integrity only.",
       "deterministic simulation: seeded scheduler + short-I/O/preemption/signal fault injection, exact byte-stream oracle", "DESIGN.md section 4 C14")
 
